@@ -403,15 +403,19 @@ PROPS = {
     "C11": {
         "run": ["EvalProps"], "functional": False,
         "n": {"quick": 300, "thorough": 4000},
-        "level_text": "Theorems: each of the three places where the model answers a request (in-check arrival, queue drained on entering a check, the waits) answers exactly the requests it takes, "
-                      "once each, with the kind the property demands; a queued request wakes a waiting machine before any timer; dropped handles leave the timers in charge.  Every implementation trace is "
-                      "run through the executable monitor step11 (exactly one reply per request; Started/Throttled only for the oldest outstanding request right after the matching check-allowed "
-                      "question and answer; AlreadyRunning only during a check or reboot wait; on-demand upgrade of the reboot question; a positive reboot answer is followed by the reboot) and compared "
-                      "with the model.  Requests are injected after arbitrary events (attempts, reports, installs, progress, reboot waits, pings) and at every wait; handle drops and requests on a "
-                      "dead machine (must fail with StateMachineGone at once) are exercised by the harness.  Theorem C11_no_reply_without_request_and_never_two: the executable monitor step11a (every reply answers a request that was sent and is still unanswered, no request is answered twice, ids never reused) accepts every model trace; its invariant ties the outstanding set to the model's queue of requests in flight (Proofs/MonitorG.v).  It also runs on every implementation trace.",
-        "level_note": "PARTIAL at the level of theorems: 'every request of every history is answered exactly once and truthfully' is a run-time monitor + trace equality, not yet a theorem about the "
-                      "model (it needs an environment-aware invariant linking the monitor's outstanding set to the model's request queue).  The real select!'s random branch order and futures-channel "
-                      "internals are not modelled; the racy point right after the check's result event is excluded from the deterministic scripts.",
+        "level_text": "Theorems: (1) C11_no_reply_without_request_and_never_two: the executable monitor step11a (every reply answers a request that was sent and is still unanswered, no request "
+                      "is answered twice, ids never reused) accepts every model trace, for every script and entry point; (2) C11_every_reply_is_the_truthful_one: the executable monitor step11x "
+                      "(Started / Throttled only for the oldest outstanding request, right after the check-allowed question asked with that request's options and matching the policy's answer; "
+                      "AlreadyRunning only during a check or the wait for the reboot; the reboot question is asked with the check's source, upgraded to on-demand by an on-demand request; a positive "
+                      "answer is followed by the reboot before any request, timer or schedule question; an on-demand request during the wait for the reboot gets the question asked again before the "
+                      "next ping) accepts every model trace of the scheduled entry point.  Both invariants tie the monitor's outstanding requests (and upgrade flag) to the model's queue of requests in "
+                      "flight, so they are proved with triples over monitor state and environment (Proofs/MonitorG.v).  (3) the reply rules of the three places where the model answers a request, a "
+                      "queued request wakes a waiting machine before any timer, dropped handles leave the timers in charge.  Model tied to the code by trace equality: requests are injected after "
+                      "arbitrary events (attempts, reports, installs, progress, reboot waits, pings) and at every wait; handle drops and requests on a dead machine (must fail with StateMachineGone "
+                      "at once) are exercised by the harness.  Both monitors also run on every implementation trace.",
+        "level_note": "Proved for the model, unbounded.  'At least one reply' is liveness: a finite trace may end with requests outstanding; the harness checks that those fail with StateMachineGone at "
+                      "once.  The real select!'s random branch order and futures-channel internals are not modelled; the racy point right after the check's result event is excluded from the "
+                      "deterministic scripts.  Model = code is sampled on scripted runs.",
         "diff_meaning": "The control-request monitor rejects the implementation's trace, a request hung / was answered on a dead machine, or the request/reply/policy/state projection differs from the model's.",
         "rule": "random scripted environments, 90% with 1-4 requests injected after arbitrary events, control requests at waits, 15% dropping all handles; distinct = distinct implementation trace; "
                 "non-trivial = at least one request or completed check",
